@@ -654,7 +654,11 @@ func (a *bnAn) leLen(v, coll ssa.Value, k int64, b *ssa.BasicBlock, assume map[s
 			hay = sl.X // a search in a prefix of the value
 		}
 		if n >= 0 && (a.sameVal(v.Call.Args[0], coll) || a.sameVal(hay, coll)) && k >= -n {
-			// only when the search is known to have succeeded here
+			// a failed search gives -1, and -1 <= len + k as soon as k >= -1
+			if k >= -1 {
+				return true
+			}
+			// otherwise only when the search is known to have succeeded here
 			if lo := a.lo(v, b, 0, map[ssa.Value]bool{}); lo != bnUnk && lo >= 0 {
 				return true
 			}
